@@ -17,7 +17,7 @@ Clause → theorem
   template at the dependence values, parameter order kept        cond_eq_template, paramValues_names
   dependent parameter = its function at g; fixed = fixed, ∀ g    paramValues_dep, fixed_param_const
   vectorised = pointwise (equal lengths; scalar g broadcast)     vector_eq_pointwise, broadcast_eq_pointwise
-  chained dependence function evaluated at the same g            chained_same_given
+  chained dependence function(s) evaluated at the same g         chained_same_given, ratio_same_given
   keyword-bound dependence functions: call succeeds iff the bound
   parameters are the trailing ones, and then every free parameter
   receives its own value                                         bindCall_ok_iff_suffix, bindCall_positions
@@ -79,6 +79,11 @@ theorem vector_length (template : List (String × α) → α → β) (specs : Li
 /-- **a chained dependence function evaluates its inner function at the same g** -/
 theorem chained_same_given (a b : α) (d : DepFn α) (g : α) :
     (DepFn.chained a b d).eval g = (a + b * g) / d.eval g := rfl
+
+/-- … also with two dependence functions as parameters: both are evaluated at the same g, each in
+its own place -/
+theorem ratio_same_given (a : α) (n d : DepFn α) (g : α) :
+    (DepFn.ratio a n d).eval g = (a + n.eval g) / d.eval g := rfl
 
 /-! ### keyword binding -/
 
